@@ -135,11 +135,18 @@ impl Prop for C06 {
     fn cases(&self, tier: Tier) -> u64 {
         tier.pick(300000, 3000000)
     }
+    fn fuzz_plan(&self, tier: Tier) -> Vec<(&'static str, u64)> {
+        if tier == Tier::Thorough {
+            vec![("prop", 100000_u64)]
+        } else {
+            vec![]
+        }
+    }
     fn choice_len(&self) -> usize {
         6000
     }
     fn gen(&self, g: &mut G<'_>, _tier: Tier) -> Case {
-        if g.chance(1, 2500) {
+        if g.chance(1, 2500) && !g.fuzzing {
             // a row longer than a wire packet, cell boundaries placed against the packet boundaries
             let (cols, big) = gen_big_layout_row(g, false);
             let mut rows = Vec::new();
